@@ -279,7 +279,7 @@ Qed.
 (* a successful balance always leaves the NEW id on the stored object *)
 Lemma lbal_ok_id T L v o i :
   fst (lcreate v) = SOk ->
-  fst (bal_batches T (l_offs L o) (Offsets.f_batches (lf_off (snd (lcreate v))))) = true ->
+  fst (bal_batches T (l_offs L o) (l_balv L (snd (lcreate v))) 0 (Offsets.f_batches (lf_off (snd (lcreate v))))) = true ->
   lf_id (lbal T L v o i) = i.
 Proof.
   intros S B. unfold lbal. rewrite S, B. unfold lcreate', lcreate.
